@@ -336,8 +336,10 @@ class LQR(nn.Module):
                 self.system.set_refpoint(state=self.x_traj[...,t,:],
                                          input=self.u_traj[...,t,:],
                                          t=torch.tensor(t*dt))
-                A = self.system.A.squeeze(-2)
-                B = self.system.B.squeeze(-2)
+                A, B = self.system.A, self.system.B
+                # a Jacobian of a (1, ns) state carries an extra batch axis: (1, ns, 1, ns)
+                A = A.squeeze(-2) if A.ndim > 3 else A
+                B = B.squeeze(-2) if B.ndim > 3 else B
                 F = torch.cat((A, B), dim=-1)
                 Qt = self.Q[...,t,:,:] + F.mT @ V @ F
                 qt = p[...,t,:] + bmv(F.mT, v)
